@@ -29,8 +29,25 @@ func init() {
 var wktVals = []float64{0, 1, -2.5, 1e21, 5e-324, 1.7976931348623157e308, 0.1, 123456789.125, -1e-7, 3}
 
 // identifiers >= len(wktVals) are fixed specials that are not rotated: 10 = negative zero
+// nearMode (set per case, only for cases whose points use the identifiers 0 and 1 alone): identifier 1 stands for the
+// float64 NEXT to the value of identifier 0. The model treats identifiers as opaque and only demands that different
+// identifiers are different numbers, so this is as good an instantiation as any other - and the one that tells an
+// exact comparison (ring closure, duplicate points) from a tolerant one.
+var nearMode bool
+
+func nearVal() float64 {
+	v := wktVals[((int(seed))%len(wktVals)+len(wktVals))%len(wktVals)]
+	if v == math.MaxFloat64 {
+		return math.Nextafter(v, 0)
+	}
+	return math.Nextafter(v, math.Inf(1))
+}
+
 func wktVal(id int) float64 {
 	n := len(wktVals)
+	if nearMode && id == 1 {
+		return nearVal()
+	}
 	if id == n {
 		return math.Copysign(0, -1)
 	}
@@ -43,6 +60,9 @@ var caseVals *[]float64
 
 func wktID(f float64) int {
 	n := len(wktVals)
+	if nearMode && math.Float64bits(f) == math.Float64bits(nearVal()) {
+		return 1
+	}
 	for i := 0; i <= n; i++ {
 		if math.Float64bits(wktVal(i)) == math.Float64bits(f) {
 			return i
@@ -369,6 +389,19 @@ func lexedToks(lt []string) []any {
 	return out
 }
 
+func onlyIDs01(toks []wtok) bool {
+	for _, t := range toks {
+		if t.kind() == "P" {
+			for _, id := range dec[[]int](t[2]) {
+				if id != 0 && id != 1 {
+					return false
+				}
+			}
+		}
+	}
+	return true
+}
+
 type wktCase struct {
 	Toks  []wtok `json:"toks"`
 	Plain bool   `json:"plain"`
@@ -385,6 +418,7 @@ func wktHandler(raw json.RawMessage) map[string]any {
 	r := rand.New(rand.NewSource(seed*7919 + int64(len(raw))*31 + int64(raw[len(raw)/2])))
 	text := c.Text
 	if text == "" {
+		nearMode = len(raw)%2 == 0 && onlyIDs01(c.Toks)
 		text = renderWKT(c.Toks, r, c.Plain)
 	}
 	if c.Corpus {
@@ -407,6 +441,7 @@ func wktHandler(raw json.RawMessage) map[string]any {
 		}
 	}
 	obs := parseWKT(text)
+	nearMode = false
 	// intended token kinds, for comparison with what the real lexer produced
 	want := []string{}
 	for _, t := range c.Toks {
